@@ -93,6 +93,7 @@ type chainCase struct {
 	User    chainUser  `json:"user"`
 	Deny    []authzRule `json:"deny"` // impersonation items the authorizer refuses (everything else is allowed)
 	Reply   chainReply `json:"reply"`
+	Resets  int        `json:"resets"` // EndpointInfo.ResetTransport() calls on the target cluster's endpoints before the request
 }
 
 type seenReq struct {
@@ -464,6 +465,17 @@ func (r *chainRig) run(raw json.RawMessage) interface{} {
 	r.authzLog = nil
 	r.mu.Unlock()
 
+	if c.Resets > 0 {
+		// what GatewayHealthCheck does after repeated hanging probes: the endpoint's transports are rebuilt
+		if ci, ok := r.mgr.Get(c.Host); ok {
+			for i := 0; i < c.Resets; i++ {
+				ci.Endpoints.Range(func(_ string, e *clusters.EndpointInfo) bool {
+					must(e.ResetTransport())
+					return true
+				})
+			}
+		}
+	}
 	if c.Host == "bucket.test" {
 		// token bucket of burst 1 refilled at 1 token/s: priming requests sent immediately before the
 		// case's request take the only token, so the case's request normally finds the bucket empty.
